@@ -1407,6 +1407,16 @@ func (up4 *UP4) modifyUP4ForwardingConfiguration(pdrs []pdr, allFARs []far, qers
 					continue
 				}
 
+				// An entry that is asked to be removed and is not there needs no further action.
+				// All uplink (downlink) PDRs of a session share a single sessions_uplink (sessions_downlink)
+				// entry, which is inserted with the first of them (ALREADY_EXISTS for the others, see above)
+				// and removed with the first of them: the others get NOT_FOUND for it.
+				// It also lets a control plane repeat a deletion that failed half way.
+				if methodType == p4.Update_DELETE &&
+					status.GetCanonicalCode() == int32(codes.NotFound) {
+					continue
+				}
+
 				return ErrOperationFailedWithReason("applying table entries to UP4", p4Error.Error())
 			}
 		}
